@@ -643,3 +643,102 @@ def uf_lemmas_for(kind, a, existing):
             out.append(z3.Implies(a < b, _EXP(a) < _EXP(b)))
             out.append(z3.Implies(b < a, _EXP(b) < _EXP(a)))
     return out
+
+
+# ---------------------------------------------------------------- bit-vector integers (coalition ids)
+class SymBV:
+    """An unsigned machine-independent integer below 2**w as a z3 bit-vector (coalition ids)."""
+
+    __slots__ = ("t", "w")
+
+    def __init__(self, t, w=16):
+        self.t = t
+        self.w = w
+
+    def _lift(self, o):
+        if isinstance(o, SymBV):
+            return o.t
+        if isinstance(o, (bool, np.bool_)):
+            o = int(o)
+        if isinstance(o, (int, np.integer)):
+            return z3.BitVecVal(int(o) & ((1 << self.w) - 1), self.w)
+        return None
+
+    def _bin(self, o, f):
+        b = self._lift(o)
+        if b is None:
+            return NotImplemented
+        return mkbv(f(self.t, b), self.w)
+
+    def _rbin(self, o, f):
+        b = self._lift(o)
+        if b is None:
+            return NotImplemented
+        return mkbv(f(b, self.t), self.w)
+
+    def __and__(self, o): return self._bin(o, lambda a, b: a & b)
+    __rand__ = __and__
+    def __or__(self, o): return self._bin(o, lambda a, b: a | b)
+    __ror__ = __or__
+    def __xor__(self, o): return self._bin(o, lambda a, b: a ^ b)
+    __rxor__ = __xor__
+    def __add__(self, o): return self._bin(o, lambda a, b: a + b)
+    __radd__ = __add__
+    def __sub__(self, o): return self._bin(o, lambda a, b: a - b)
+    def __rsub__(self, o): return self._rbin(o, lambda a, b: a - b)
+    def __invert__(self): return mkbv(~self.t, self.w)
+    def __rshift__(self, o): return self._bin(o, lambda a, b: z3.LShR(a, b))
+    def __lshift__(self, o): return self._bin(o, lambda a, b: a << b)
+    def __rlshift__(self, o): return self._rbin(o, lambda a, b: a << b)
+
+    def _cmp(self, o, f):
+        b = self._lift(o)
+        if b is None:
+            return NotImplemented
+        return mkbool(z3.simplify(f(self.t, b)))
+
+    def __eq__(self, o):
+        if not isinstance(o, (SymBV, int, np.integer, bool, np.bool_)):
+            return False
+        if isinstance(o, (int, np.integer)) and not (0 <= int(o) < (1 << self.w)):
+            return False
+        return self._cmp(o, lambda a, b: a == b)
+
+    def __ne__(self, o):
+        r = self.__eq__(o)
+        return (not r) if isinstance(r, bool) else ~r
+
+    def __lt__(self, o): return self._cmp(o, z3.ULT)
+    def __le__(self, o): return self._cmp(o, z3.ULE)
+    def __gt__(self, o): return self._cmp(o, z3.UGT)
+    def __ge__(self, o): return self._cmp(o, z3.UGE)
+
+    def __bool__(self):
+        return _eng.current().branch(z3.simplify(self.t != 0))
+
+    def concretize(self):
+        """Fork over the value bit by bit (most significant first): one path per feasible value."""
+        e = _eng.current()
+        val = 0
+        for i in reversed(range(self.w)):
+            if e.branch(z3.simplify(z3.Extract(i, i, self.t) == 1)):
+                val |= 1 << i
+        return val
+
+    def __index__(self):
+        return self.concretize()
+
+    __int__ = __index__
+
+    def __hash__(self):
+        return hash(self.concretize())
+
+    def __repr__(self):
+        return "BV(%s)" % self.t
+
+
+def mkbv(t, w):
+    t = z3.simplify(t)
+    if z3.is_bv_value(t):
+        return t.as_long()
+    return SymBV(t, w)
